@@ -181,7 +181,10 @@ def monitor_(rec, params, confs=None):
 CFG_EDITS = {'shared': {'shared_determinants': '1'}, 'shared-keep': {'shared_determinants': '1', 'remove_penalised_group': '0'},
              'allowance': {'desolvationAllowance': '0.05'}, 'scaling': {'desolvationSurfaceScalingFactor': '0.0', 'desolvationPrefactor': '-20.0'},
              'ranges': {'Nmin': '100', 'Nmax': '300', 'coulomb_cutoff1': '3.0', 'coulomb_cutoff2': '12.0'},
-             'hbond': {'sidechain_interaction': '1.2', 'COO_HIS_exception': '2.9', 'CYS_CYS_exception': '4.4'}}
+             'hbond': {'sidechain_interaction': '1.2', 'COO_HIS_exception': '2.9', 'CYS_CYS_exception': '4.4'},
+             'ranges-wide': {'coulomb_cutoff1': '6.0', 'coulomb_cutoff2': '12.0'},
+             'exclude-his': {'+exclude_sidechain_interactions': ['HIS']}, 'exclude-acids': {'+exclude_sidechain_interactions': ['ASP', 'GLU', 'C-']},
+             'exclude-bases': {'+exclude_sidechain_interactions': ['LYS', 'ARG', 'TYR', 'CYS']}}
 
 
 def cfg_path(name):
@@ -195,6 +198,9 @@ def cfg_path(name):
             if w and w[0] in CFG_EDITS[name]:
                 ln = '%s %s\n' % (w[0], CFG_EDITS[name][w[0]])
             lines.append(ln)
+        for key, vals in CFG_EDITS[name].items():
+            if key.startswith('+'):      # list keywords the shipped file does not use: one line per entry
+                lines += ['%s %s\n' % (key[1:], x) for x in vals]
         with open(path, 'w') as fh:
             fh.write(''.join(lines))
     return path
